@@ -519,6 +519,133 @@ def gen_ops(rng, prog, n_ops, w=(0.34, 0.05, 0.36, 0.10, 0.10, 0.05), vals=(0, 1
     return ops
 
 
+def gen_zone_case(rng, n_ops=None):
+    """untrack ZONES with several reads: an outer memo `tracked + untrack(|| stale_memo + signal ...)`, the memo in the
+    zone being pulled (recomputed) from inside the zone before the other reads are made; the history writes the
+    untracked sources, the inner memo's input and the tracked part, and reads the outer memo in between"""
+    prog = []
+    nsig = rng.randint(2, 4)
+    for _ in range(nsig):
+        prog.append([0, rng.choice([0, 0, 1, 1, 2, 3, 4]), rng.randint(0, 3)])
+    sigs = list(range(nsig))
+    inner = []
+    for _ in range(rng.randint(1, 3)):
+        readable = sigs + inner
+        src = rng.choice(inner) if inner and rng.random() < 0.5 else rng.choice(sigs)
+        body = [1, src] if rng.random() < 0.5 else [4, [1, src], gen_expr(rng, readable, 1, 0.0, sigs)]
+        prog.append([1, rng.choice([0, 0, 0, 1, 2]), rng.randint(0, 1), body])
+        inner.append(len(prog) - 1)
+    outers = []
+    for _ in range(rng.randint(1, 3)):
+        readable = [j for j in range(len(prog))]
+        parts = [[1, rng.choice(inner)]]                      # the memo first ...
+        for _ in range(rng.randint(1, 3)):                    # ... then signals / other nodes, in the same zone
+            parts.append([1, rng.choice(sigs if rng.random() < 0.7 else readable)])
+        if rng.random() < 0.25:
+            rng.shuffle(parts)
+        zone = parts[0]
+        for x in parts[1:]:
+            zone = [4, zone, x]
+        zone = [3, zone]
+        tracked = [1, rng.choice(sigs)] if rng.random() < 0.8 else gen_expr(rng, readable, 1, 0.0, sigs)
+        r = rng.random()
+        if r < 0.5:
+            body = [4, tracked, zone]
+        elif r < 0.75:
+            body = [4, zone, tracked]
+        else:
+            body = [6, tracked, zone, [4, zone, [0, 1]]]
+        prog.append([1, rng.choice([0, 0, 0, 1]), rng.randint(0, 1), body])
+        outers.append(len(prog) - 1)
+    if rng.random() < 0.5:
+        prog.append([1, 0, rng.randint(0, 1), [4, [1, rng.choice(outers)], [0, 1]]])
+        outers.append(len(prog) - 1)
+    if rng.random() < 0.3:
+        prog.append([2, rng.choice([0, 1, 2, 3, 4]), [1, rng.choice(outers)]])
+        outers.append(len(prog) - 1)
+    ops = []
+    for _ in range(n_ops or rng.randint(6, 24)):
+        r = rng.random()
+        if r < 0.45:
+            ops.append([0, rng.choice(sigs), rng.randint(0, 5)])
+        elif r < 0.5:
+            ops.append([1, rng.choice(sigs)])
+        elif r < 0.9:
+            ops.append([2, rng.choice(outers)])
+        else:
+            ops.append([2, rng.choice(inner)])
+    ops.append([2, outers[-1]])
+    return [prog, ops]
+
+
+def gen_deep_case(rng, depth, n_diamonds=0, with_effect=False):
+    """a chain of `depth` memos over one or two signals, a few of its links being small diamonds (the push phase of
+    the real code re-propagates on every incoming path, so stacked diamonds cost 2^k: k stays small), read at the far
+    end, in the middle and near the signal between writes"""
+    prog = [[0, rng.choice([0, 1, 2, 3, 4]), rng.randint(0, 3)], [0, rng.choice([0, 1, 2]), rng.randint(0, 3)]]
+    at = set(rng.sample(range(5, max(6, depth - 5)), min(n_diamonds, max(0, depth - 12)))) if n_diamonds else set()
+    prev = 0
+    marks = []
+    while len(prog) < depth + 2:
+        i = len(prog)
+        cmpk = 1 if rng.random() < 0.03 else 0
+        fl = rng.randint(0, 1)
+        if i in at:
+            prog.append([1, cmpk, fl, [4, [1, prev], [0, 1]]])
+            prog.append([1, 0, fl, [1, prev] if rng.random() < 0.5 else [4, [1, prev], [1, 1]]])
+            prog.append([1, 0, fl, [4, [1, i], [1, i + 1]]])
+            prev = i + 2
+        else:
+            r = rng.random()
+            if r < 0.6:
+                body = [1, prev]
+            elif r < 0.9:
+                body = [4, [1, prev], [0, rng.randint(0, 1)]]
+            elif r < 0.95:
+                body = [4, [1, prev], [3, [1, 1]]]
+            else:
+                body = [6, [5, [1, 1], [0, 2]], [1, prev], [4, [1, prev], [0, 1]]]
+            prog.append([1, cmpk, fl, body])
+            prev = i
+        marks.append(prev)
+    far = prev
+    if with_effect:
+        prog.append([3, rng.choice([0, 1, 4]), [1, far], [0, 0]])
+    mid = marks[len(marks) // 2]
+    near = marks[min(3, len(marks) - 1)]
+    ops = [[2, far]] if rng.random() < 0.8 else []
+    for _ in range(rng.randint(3, 6)):
+        ops.append([0, 0, rng.randint(0, 6)])
+        if with_effect and rng.random() < 0.5:
+            ops.append([4])
+        r = rng.random()
+        if r < 0.55:
+            ops.append([2, far])
+        elif r < 0.7:
+            ops += [[2, mid], [2, far]]
+        elif r < 0.8:
+            ops += [[2, near], [2, far]]
+        elif r < 0.9:
+            ops += [[0, 1, rng.randint(0, 3)], [2, far]]
+        else:
+            ops += [[2, rng.choice(marks)], [2, far]]
+    if with_effect:
+        ops.append([4])
+    return [prog, ops]
+
+
+def interleave(main, extras, every):
+    """yield the items of `main`, one of `extras` after every `every` of them (expensive cases spread over the
+    shards the driver cuts the stream into), the rest at the end"""
+    extras = list(extras)
+    for n, it in enumerate(main):
+        yield it
+        if extras and (n + 1) % every == 0:
+            yield extras.pop(0)
+    for it in extras:
+        yield it
+
+
 def add_owner_tree(rng, prog, p_child=0.6):
     """put the owners of the effects into a tree: an effect's owner is created under the owner of an
     earlier effect (ImmediateEffect stays outside)"""
@@ -636,6 +763,7 @@ class Walker:
         self.sig = {i: nd[2] for i, nd in enumerate(prog) if nd[0] == SIG}
         self.lastlog = {}      # i -> [(j, v, t)] of the last (or the running) body run
         self.endval = {}       # memo -> last computed value
+        self.prevval = {}      # memo -> the value before that
         self.runs = {}         # i -> number of body runs started
         self.running = []      # stack of (i, handler?)
         # a selector's internal effect is an effect nobody pauses or disposes
@@ -645,6 +773,8 @@ class Walker:
         self.selprev = {}      # ... and the one before
         self.sel_of_key = {t: i for i, nd in enumerate(prog) if nd[0] == SEL for t in nd[5]}
         self.diverged = False
+        self.in_notify = 0     # > 0: inside the marking phase of a write (bodies run there only for ImmediateEffects)
+        self.notifying = []    # the signals whose subscribers are being marked right now (innermost last)
         self.gone = set()      # disposed signals / memos
         self.epoch = 0         # bumped at every write (memoisation of truth values)
 
@@ -691,6 +821,7 @@ class Walker:
         if nd[0] == MEMO:
             old = self.endval.get(i)
             changed = True if nd[1] == 1 else (old is None or not same_for_subscribers(nd, old, v))
+            self.prevval[i] = old
             self.endval[i] = v
         if nd[0] == SEL:
             self.selprev[i] = self.selval.get(i)
@@ -750,7 +881,13 @@ class Walker:
             self.sig[s] = v
         self.epoch += 1
         self.hooks.write(self, s, who)
-        self.blocks()          # synchronous subscribers (ImmediateEffect) run inside the write
+        self.in_notify += 1
+        self.notifying.append(s)
+        try:
+            self.blocks()      # synchronous subscribers (ImmediateEffect) run inside the write
+        finally:
+            self.in_notify -= 1
+            self.notifying.pop()
 
     def read(self, who, j, m, untr):
         nd = self.prog[j]
@@ -977,6 +1114,57 @@ class C01Hooks(Hooks):
         self.truth = None
         self.only_eff = only_effect_reads
         self.checked = 0
+        self.cause = {}        # i -> since its last run started, something it tracked was written / changed
+        self.had_cause = {}
+
+    # "a read made through untrack contributes the value it had when the computation last ran": as long as
+    # nothing a memo TRACKS has been written (or recomputed to a different value), its value must stay what it
+    # was, whatever happened to the values it read through untrack / get_untracked
+    def start(self, w, i, handler):
+        if handler:
+            return
+        self.had_cause[i] = self.cause.get(i, False)
+        self.cause[i] = False
+
+    def mark(self, w, j):
+        for i in list(w.lastlog.keys()):
+            if any(t and a == j for (a, _, t) in w.lastlog[i]):
+                self.cause[i] = True
+
+    def write(self, w, s, who):
+        self.mark(w, s)
+
+    def after_op(self, w, o):
+        if o[0] == 8:
+            # disposal is not a change, but a computation that runs again reads 0 for the disposed node
+            self.mark(w, o[1])
+
+    def end(self, w, i, v, handler, changed):
+        nd = w.prog[i]
+        if handler:
+            return
+        if nd[0] == SEL:
+            for t in nd[5]:
+                self.mark(w, t)
+            return
+        if nd[0] != MEMO:
+            return
+        old = w.prevval.get(i)
+        if (not self.only_eff and not self.fail and w.runs.get(i, 0) > 1 and not self.had_cause.get(i)
+                and old is not None and old != v and not self.in_immediate(w)):
+            self.fail = ("memo %d went from %d to %d although nothing it tracks was written or recomputed to a different "
+                         "value since its previous run: a value read through untrack / get_untracked must contribute what "
+                         "it was when the computation last ran" % (i, old, v))
+        if changed:
+            self.mark(w, i)
+
+    @staticmethod
+    def in_immediate(w):
+        """inside the marking phase of a write, or inside an ImmediateEffect: an ImmediateEffect reacts in the
+        middle of the marking phase (its source check pulls memos while later subscribers of the written signal
+        are not marked yet) and sees not-yet-marked memos by design; so does whatever it pulls.  Everything is
+        checked again by the reads made after the write has returned."""
+        return w.in_notify > 0 or any(w.prog[i][0] == EFF and w.prog[i][1] == 5 for (i, _) in w.running)
 
     def read(self, w, who, j, v, t):
         if self.fail:
@@ -985,6 +1173,8 @@ class C01Hooks(Hooks):
             self.truth = Truth(w)
         nd = w.prog[j]
         if self.only_eff and not (who >= 0 and w.prog[who][0] == EFF):
+            return
+        if not self.only_eff and self.in_immediate(w):
             return
         if nd[0] == DER or is_key(nd):
             return            # its value is the replay of the reads just made, each checked separately
@@ -1016,6 +1206,13 @@ class C09Hooks(Hooks):
         if handler or self.fail:
             return
         self.nruns += 1
+        if (w.prog[i][0] == EFF and w.prog[i][1] == 5) or C01Hooks.in_immediate(w):
+            # ImmediateEffect (immediate.rs, outside the anchors) reacts in the middle of the marking phase of a write
+            # and re-enters by design ("they might recurse"): its own invocations, and what it pulls while the
+            # marking is still under way, are not held to "once per change"; the runs started by reads made after
+            # the write has returned are
+            self.cause[i] = False
+            return
         if w.runs.get(i, 0) > 1 and not self.cause.get(i):
             what = "memo" if w.prog[i][0] == MEMO else "effect"
             self.fail = ("%s %d ran again (run %d) although nothing it tracked in its previous run was "
@@ -1033,6 +1230,11 @@ class C09Hooks(Hooks):
     def end(self, w, i, v, handler, changed):
         if not handler and w.prog[i][0] == MEMO and changed:
             self.mark(w, i)
+        if not handler and C01Hooks.in_immediate(w):
+            # pulled by an ImmediateEffect in the middle of the marking phase of a write: it has seen new values
+            # already, and the marks of that same write may still reach it afterwards (directly, or through a memo
+            # that is marked later and then reports a change): its next run is not held to "once per change" either
+            self.cause[i] = True
 
 
 # ----------------------------------------------------------------------------- oracle C02
@@ -1190,6 +1392,25 @@ def run_oracle(item, impl, hooks):
         if impl.startswith("!hang"):
             return "the case did not return (deadlock or livelock)"
         return "harness reported " + impl
+    if len(item["case"][0]) > 100:
+        # deep chains: the walker and the from-scratch evaluator recurse once per level
+        import sys, threading
+        box = []
+        old = sys.getrecursionlimit()
+        sys.setrecursionlimit(max(old, 40 * len(item["case"][0]) + 1000))
+        threading.stack_size(512 << 20)
+        try:
+            th = threading.Thread(target=lambda: box.append(_run_oracle(item, impl, hooks)))
+            th.start()
+            th.join()
+        finally:
+            threading.stack_size(0)
+            sys.setrecursionlimit(old)
+        return box[0] if box else "oracle crashed: the walker thread died"
+    return _run_oracle(item, impl, hooks)
+
+
+def _run_oracle(item, impl, hooks):
     prog, ops = item["case"]
     w = Walker(prog, ops, impl, hooks)
     try:
